@@ -79,7 +79,7 @@ CaseOf ==
         ivlen |-> IF obj.kind = "jwe" THEN IvBytes(obj.enc) ELSE 0,
         siglen |-> IF obj.keykind \in EcKinds /\ obj.kind = "jws" THEN 2 * CoordBytes(obj.keykind) ELSE 0,
         sigsearch |-> IF obj.keykind \in EcKinds /\ obj.kind = "jws" THEN SigSearch ELSE 0,
-        bits |-> IF obj.size \in AllBitsSizes THEN "all" ELSE "seeded",
+        bits |-> IF obj.size \in AllBitsSizes /\ obj.aad <= 1 THEN "all" ELSE "seeded",
         runs |-> Runs(obj, form)]
 Emit == PrintT(<<"CASE", ToJson(CaseOf)>>)
 =============================================================================
